@@ -64,7 +64,7 @@ def cases(tier, seed):
         if kind == 0:
             # keep drawing until the font has >= 3 mark classes and a mark glyph that belongs to two of them
             for _try in range(200):
-                c = layout_gen.anchors_font(rng)
+                c = layout_gen.mark_conflict_font(rng) if (k // 2) % 3 != 2 else layout_gen.anchors_font(rng)
                 marks = [[a["n"] for a in g["anchors"] if a["n"].startswith("_") and not a["n"][1:].isdigit()] for g in c["ufo"]["glyphs"].values()]
                 classes = {a for m in marks for a in m}
                 if len(classes) >= 3 and any(len(set(m)) >= 2 for m in marks):
